@@ -237,3 +237,18 @@ contract(L + 'LogicalLinkController.exchange', 'C09',
          name='C09/llc.exchange.real', use=['C09/pdu.decode'],
          ensures=[('O-exchange.result', 'result is None or isinstance(result, pdu.ProtocolDataUnit)')],
          raises={})
+
+# terminate() reaches the sockets it has to wake only through llc.sap[addr].sock_list.  "Every blocked call returns"
+# therefore rests on the table invariant "an open, bound socket is listed at llc.sap[socket.addr]" being kept by the
+# operations that edit the table while the link is up.  Those are C17's contracts (bind puts the socket there; close
+# removes exactly the closed socket and drops the access point only with its last socket): obligations of C09 too.
+import copy as _copy2
+from pyvc.contracts import REGISTRY as _REG
+from . import c17_addr as _c17   # noqa
+for _c in list(_REG):
+    if _c.prop == 'C17' and not _c.expect_fail and not _c.assumed and (
+            _c.name.startswith('C17/close.') or _c.name.startswith('C17/_bind_by_')):
+        _c2 = _copy2.copy(_c)
+        _c2.prop = 'C09'
+        _c2.name = 'C09/table.' + _c.name.split('/', 1)[1]
+        _REG.append(_c2)
